@@ -111,7 +111,13 @@ class Engine:
                 return v.t
             if v.ty in ("int", "bool") and how in ("str", "repr") and v.ty == "int":
                 return self.spec_apply("spec.core", "str_of_int", [v]).t
-            return self._fn("opq.format_" + how, [Py], S.Str)(box(v))
+            opq = self._fn("opq.format_" + how, [Py], S.Str)(box(v))
+            if v.ty == "py" and how == "str":
+                # str(x): a string is itself, an int its decimal text; other kinds stay opaque
+                t = v.t
+                soi = self.spec_apply("spec.core", "str_of_int", [V("int", Py.i(t))]).t
+                return z3.If(Py.is_str(t), Py.s(t), z3.If(Py.is_int(t), soi, opq))
+            return opq
         return z3.StringVal(f"<{v}>")
 
     def new_sentinel(self, name=None):
